@@ -419,13 +419,32 @@ namespace adept {
 				cg_curvature_coeff_);
       }
 
-      // More than one variable can reach its bound in the same step:
-      // record them all, and restart as when a single bound is met
-      if (any((x >= max_x && bound_status != 1)
-	      || (x <= min_x && bound_status != -1))) {
-	bound_status.where(x >= max_x) =  1;
-	bound_status.where(x <= min_x) = -1;
-	do_restart = true;
+      // A variable left within rounding error of a bound is placed
+      // on it: the distance to the bound would otherwise limit the
+      // next line search to a step too small to change the cost
+      // function.  This also records every variable that reached its
+      // bound in the same step as the nearest one.
+      for (int ix = 0; ix < nx; ++ix) {
+	if (bound_status(ix) == 0) {
+	  Real tolerance = 4.0*std::numeric_limits<Real>::epsilon()
+	    * std::max(1.0, std::fabs(x(ix)));
+	  int i_type = 0;
+	  if (max_x(ix) - x(ix) <= tolerance) {
+	    i_type = 1;
+	  }
+	  else if (x(ix) - min_x(ix) <= tolerance) {
+	    i_type = -1;
+	  }
+	  if (i_type != 0) {
+	    Real x_bound = i_type > 0 ? max_x(ix) : min_x(ix);
+	    if (x(ix) != x_bound) {
+	      x(ix) = x_bound;
+	      state_up_to_date = -1;
+	    }
+	    bound_status(ix) = i_type;
+	    do_restart = true;
+	  }
+	}
       }
 
       if (ls_status == MINIMIZER_STATUS_SUCCESS) {
